@@ -1220,23 +1220,22 @@ class Image(object):
 
             arr = self.asarray()
 
-            # Avoid annoying RuntimeWarnings on all-NaN data
-            with warnings.catch_warnings():
-                warnings.simplefilter("ignore")
-                if min_value is not None:
-                    header["DATAMIN"] = min_value
-                else:
-                    m = np.nanmin(arr)
-                    if np.isfinite(
-                        m
-                    ):  # Astropy will raise an error if we don't NaN-guard
-                        header["DATAMIN"] = m
-                if max_value is not None:
-                    header["DATAMAX"] = max_value
-                else:
-                    m = np.nanmax(arr)
-                    if np.isfinite(m):
-                        header["DATAMAX"] = m
+            # The recorded range describes the finite data values only: NaNs
+            # mark undefined pixels, and an infinite pixel must not hide the
+            # finite extreme (Astropy refuses non-finite header values, so the
+            # card would otherwise be dropped altogether).
+            if min_value is None or max_value is None:
+                finite = arr[np.isfinite(arr)]
+
+            if min_value is not None:
+                header["DATAMIN"] = min_value
+            elif finite.size:
+                header["DATAMIN"] = finite.min()
+
+            if max_value is not None:
+                header["DATAMAX"] = max_value
+            elif finite.size:
+                header["DATAMAX"] = finite.max()
 
             fits.writeto(
                 path_or_stream,
